@@ -15,7 +15,7 @@ def op_term(op):
         "item": lambda: "OpItem %s" % z(a[0]),
         "set": lambda: "OpSet %s %s" % (z(a[0]), z(a[1])),
         "len": lambda: "OpLen",
-        "grow": lambda: "OpGrow %s" % z(a[0]),
+        "grow": lambda: "OpGrow %s" % z(grow_arg(a[0])),
         "shrink": lambda: "OpShrink %s" % z(a[0]),
         "iterate": lambda: "OpIterate",
         "iternew": lambda: "OpIterNew",
@@ -38,6 +38,13 @@ def out_term(o):
     if k == "panic":
         return "OPanic"
     return "OBad"
+
+
+HUGE = {"maxint": 2 ** 63 - 1, "maxint-16": 2 ** 63 - 17, "maxint/2": 2 ** 62 - 1}
+
+
+def grow_arg(a):
+    return HUGE[a] if isinstance(a, str) else a
 
 
 class DequeSpec(SeqSpec):
@@ -77,7 +84,10 @@ class DequeSpec(SeqSpec):
             elif k == "set":
                 ops.append([k, rng.choice([-1, 0, ln - 1, ln, rng.randint(0, max(0, ln))]), val()])
             elif k == "grow":
-                ops.append([k, rng.choice([-3, 0, 1, 2, 5, 17, rng.randint(0, 40)])])
+                # huge arguments (as names: JSON numbers cannot carry them): make() inside Grow panics for them -
+                # recoverably, before anything of the deque is written; the history then goes on
+                ops.append([k, rng.choice([-3, 0, 1, 2, 5, 17, rng.randint(0, 40), rng.randint(0, 40),
+                                          rng.choice(["maxint", "maxint-16", "maxint/2"])])])
             elif k == "shrink":
                 ops.append([k, rng.choice([-1, 0, 0, 1, 3, rng.randint(0, 20)])])
             elif k == "iternew":
@@ -171,7 +181,7 @@ class DequeSpec(SeqSpec):
             elif n == "len":
                 exp = ["int", len(ideal)]
             elif n == "grow":
-                exp = ["unit"]
+                exp = ["panic"] if grow_arg(op[1]) > 2 ** 47 else ["unit"]      # the allocation fails: contents unchanged
             elif n == "shrink":
                 exp = ["panic"] if op[1] < 0 else ["unit"]
             elif n == "iterate":
